@@ -867,6 +867,72 @@ Theorem C08_tables_ok :
 Proof. split; [exact ZobristProofs.gen_gen_masks_ok|split; [exact ZobristProofs.gen_keys_rows_ok|reflexivity]]. Qed.
 Print Assumptions C08_tables_ok.
 
+(* ---- the same for the chess family of Proofs/RepetitionInstance.v and the tables of the current tree
+   (Proofs/C08Chess.v):   goodC n b  :=  wf b, rights_wf b, ep_free b, is_valid b, half b + n < 4096, ep_wf b, 1 <= full b.
+   Discharged: C03_family, good -> sane, the table conditions, the range of the static evaluation (eval_range_ok),
+   the range of the mate scores (full-move number + depth < 2^24).  For `go depth 1` nothing else is left. ---- *)
+Require Import Ink.Proofs.C08Chess.
+Open Scope Z_scope.
+
+Theorem C08_goodC_def : forall n b, goodC n b <->
+  (wf b = true /\ MakeUnmake.rights_wf b = true /\ Preserve.ep_free b = true /\ is_valid GT b = true /\
+   (half b + N.of_nat n < 4096)%N) /\ ZobristProofs.ep_wf b = true /\ (1 <= full b)%N.
+Proof. exact (RepetitionInstance.good_c10_def GT). Qed.
+Print Assumptions C08_goodC_def.
+
+Theorem C08_quiescence_chess : forall (fuel : nat) (alpha beta : Z) (zph : N) (st : sstate),
+  goodC fuel (s_board st) -> (ChessGame.qmeasure (s_board st) < fuel)%nat -> alpha < beta ->
+  vm_value (fst (quiescence GT fuel alpha beta zph st)) =
+  clamp alpha beta (Minimax.qs board (ChessGame.noisy_succs GT) (ChessGame.static GT) ChessGame.qmeasure (s_board st)).
+Proof. exact quiescence_concrete_chess. Qed.
+Print Assumptions C08_quiescence_chess.
+
+Theorem C08_horizon_chess : forall (alpha beta : Z) (zph : N) (st : sstate),
+  goodC 130 (s_board st) ->
+  alpha < horizon board (ChessGame.succs GT) (ChessGame.noisy_succs GT) (ChessGame.noisy_any GT) (ChessGame.static GT)
+            (ChessGame.terminal GT) ChessGame.qmeasure (s_board st) < beta ->
+  vm_value (fst (leaf_node GT (turn (s_board st)) alpha beta zph (gen_pseudo GT (s_board st)) st)) =
+  horizon board (ChessGame.succs GT) (ChessGame.noisy_succs GT) (ChessGame.noisy_any GT) (ChessGame.static GT)
+    (ChessGame.terminal GT) ChessGame.qmeasure (s_board st).
+Proof. exact horizon_concrete_chess. Qed.
+Print Assumptions C08_horizon_chess.
+
+Theorem C08_static_range_chess : forall b : board, wf b = true ->
+  - win_score GT < ChessGame.static GT b < win_score GT.
+Proof. exact (static_range GT GT_range). Qed.
+Print Assumptions C08_static_range_chess.
+
+Theorem C08_depth1_chess : forall orc : oracle, quiet orc ->
+  forall (g : go_params) (st : sstate), g_depth g = Some 1%N -> plain_go g ->
+  goodC 131 (s_board st) -> (half (s_board st) < 5)%N -> (full (s_board st) + 1 < 16777216)%N ->
+  root_empty GT (s_board st) = false ->
+  Forall (exact_rec GT (static_sat GT) (s_board st) 0) (fst (go_full GT orc g st)) /\
+  (ChessGame.succs GT (s_board st) <> [] ->
+   exists it, fst (go_full GT orc g st) = [it] /\ exact_rec GT (static_sat GT) (s_board st) 0 it).
+Proof. exact depth1_concrete_chess. Qed.
+Print Assumptions C08_depth1_chess.
+
+Theorem C08_go_depth_chess : forall orc : oracle, quiet orc ->
+  forall sim : nat -> board -> board -> Prop,
+  (forall (r' r : nat) (x y : board), sim r' x y -> (r <= r')%nat ->
+     nm board (ChessGame.succs GT) (ChessGame.noisy_succs GT) (ChessGame.noisy_any GT) (static_sat GT) (ChessGame.terminal GT)
+        ChessGame.qmeasure r x =
+     nm board (ChessGame.succs GT) (ChessGame.noisy_succs GT) (ChessGame.noisy_any GT) (static_sat GT) (ChessGame.terminal GT)
+        ChessGame.qmeasure r y) ->
+  (forall (r r' : nat) (x y : board), (r <= r')%nat -> sim r' x y -> sim r x y) ->
+  forall (g : go_params) (st : sstate) (dd : N), g_depth g = Some dd ->
+  ((depth_of dd <= 1)%nat \/ ND GT goodC) -> plain_go g ->
+  goodC (depth_of dd + 130)%nat (s_board st) -> (half (s_board st) + N.of_nat (depth_of dd) < 6)%N ->
+  ply_unique board (ChessGame.succs GT) (zobrist_hash GT) sim (depth_of dd) (s_board st) ->
+  root_empty GT (s_board st) = false -> (full (s_board st) + N.of_nat (depth_of dd) < 16777216)%N ->
+  Forall (fun it => exists d : nat, (S d <= depth_of dd)%nat /\ exact_rec GT (static_sat GT) (s_board st) d it)
+         (fst (go_full GT orc g st)) /\
+  (ChessGame.succs GT (s_board st) <> [] ->
+   exists it rest, fst (go_full GT orc g st) = it :: rest /\
+                   exact_rec GT (static_sat GT) (s_board st) (pred (depth_of dd)) it).
+Proof. exact go_depth_concrete_chess. Qed.
+Print Assumptions C08_go_depth_chess.
+
 (* ---- a closed cross-check by computation: the concrete `go depth 3` and the spec value nm, K+P v K+P ---- *)
 Module ExChess.
 Import Coq.Strings.String.StringSyntax.
